@@ -35,7 +35,8 @@ NewSess(e) == [proto |-> e.proto, tOpen |-> e.t, closed |-> FALSE, closeT |-> Of
                deadline |-> IF e.proto = 4 THEN Off ELSE e.t + cfg.pi + cfg.pt,
                sent |-> <<>>, nrcv |-> 0, sub |-> <<>>, del |-> <<>>,
                created |-> <<>>, flushed |-> {}, cbReg |-> <<>>, cbRun |-> <<>>, lastFlush |-> <<>>, phase |-> "idle",
-               causes |-> {}, pollOut |-> 0, dataOut |-> 0, closeAsked |-> Off, buffered |-> <<>>, closeSeen |-> FALSE, lastPost |-> <<>>, cset |-> {}, grace |-> Off, closeCalled |-> FALSE, parked |-> 0, may |-> {}, v3lossy |-> FALSE, sloppy |-> FALSE, nested |-> FALSE, inDispatch |-> FALSE, probeT |-> Off, coincide |-> FALSE]
+               causes |-> {}, pollOut |-> 0, dataOut |-> 0, closeAsked |-> Off, buffered |-> <<>>, closeSeen |-> FALSE, lastPost |-> <<>>, cset |-> {}, grace |-> Off, closeCalled |-> FALSE, parked |-> 0, may |-> {}, v3lossy |-> FALSE, sloppy |-> FALSE, nested |-> FALSE, inDispatch |-> FALSE, probeT |-> Off, coincide |-> FALSE,
+               accAtClose |-> {}, retd |-> {}, hard |-> FALSE, closeReason |-> "", gracefulAsked |-> FALSE]
 
 \* ---------------------------------------------------------------- common per-event checks for sock.* events
 \* lifecycle clauses that apply to every event sampled from a socket
@@ -44,7 +45,9 @@ SockCommon(e, s) ==
        (IF r < s.rank THEN <<V("C03", "state_went_backwards", e.sid, [from |-> s.rank, to |-> e.rs, ev |-> e.e])>> ELSE <<>>)
     \* (a drain that completes the flush during which a listener closed the session still belongs to that flush)
     \* (and the message event of a packet whose own packet-listener closed the session still belongs to that dispatch)
-    \o (IF s.closed /\ e.e # "sock.close" /\ ~(e.e = "sock.drain" /\ s.phase = "srvflushed") /\ ~(e.e = "sock.message" /\ s.inDispatch)
+    \* (the property lists message, packet, heartbeat, upgrade, flush and drain events: "upgrading" - a probe answered while the
+    \*  close listeners are still running - is not among them)
+    \o (IF s.closed /\ e.e \notin {"sock.close", "sock.upgrading"} /\ ~(e.e = "sock.drain" /\ s.phase = "srvflushed") /\ ~(e.e = "sock.message" /\ s.inDispatch)
         THEN <<V("C03", "event_after_close", e.sid, e.e)>> ELSE <<>>)
     \o (IF e.tr # s.tr /\ e.e # "sock.upgrade" /\ ~s.closed THEN <<V("C08", "transport_changed_without_upgrade_event", e.sid, [from |-> s.tr, to |-> e.tr, ev |-> e.e])>> ELSE <<>>)
 
@@ -146,7 +149,7 @@ Step ==
        [] e.e = "app.send.ret" /\ known ->
             \* a Send that produced no packetCreate was discarded: drop it from the sent log
             LET acc == e.id \in SeqSet(s.created) \/ e.id \in s.flushed
-                ns == IF acc THEN s ELSE [s EXCEPT !.sent = SelectSeq(s.sent, LAMBDA m : m.id # e.id)]
+                ns == IF acc THEN [s EXCEPT !.retd = s.retd \cup {e.id}] ELSE [s EXCEPT !.sent = SelectSeq(s.sent, LAMBDA m : m.id # e.id)]
             IN /\ S' = Upd(ns)
                /\ viol' = viol \o tv
                     \o (IF ~acc /\ ~s.closed /\ e.rs = "open" /\ ~s.closeCalled /\ s.parked = 0 /\ ~s.nested
@@ -235,6 +238,7 @@ Step ==
                              [] OTHER -> FALSE
                 modelClients == {x \in DOMAIN SS : ~SS[x].closed} \ {e.sid}
             IN /\ S' = Upd([s EXCEPT !.closed = TRUE, !.closeT = t, !.nclose = s.nclose + 1, !.rank = Rank("closed"),
+                                     !.closeReason = IF s.nclose = 0 THEN e.reason ELSE s.closeReason,
                                      !.pingDue = Off, !.deadline = Off, !.closeAsked = Off])
                /\ viol' = viol \o tv \o SockCommon(e, s)
                     \o (IF s.nclose >= 1 THEN <<V("C03", "second_close_event", e.sid, e.reason)>> ELSE <<>>)
@@ -249,10 +253,16 @@ Step ==
        [] e.e = "app.close.call" /\ known ->
             /\ S' = Upd([s EXCEPT !.causes = s.causes \cup {"app"}, !.closeCalled = TRUE,
                                   !.closeAsked = IF s.closed \/ s.closeAsked # Off THEN s.closeAsked ELSE t,
-                                  !.buffered = IF e.discard THEN <<>> ELSE s.created])
+                                  !.buffered = IF e.discard THEN <<>> ELSE s.created,
+                                  !.hard = s.hard \/ e.discard,
+                                  !.gracefulAsked = s.gracefulAsked \/ (~e.discard /\ e.rs = "open" /\ ~s.closed),
+                                  \* messages whose Send had been accepted AND had returned when a graceful Close was asked of an open session
+                                  \* (a Close issued from inside a Send's own packetCreate listener precedes the buffering of that packet)
+                                  !.accAtClose = IF ~e.discard /\ e.rs = "open" /\ ~s.closed /\ ~s.gracefulAsked
+                                                 THEN s.retd ELSE s.accAtClose])
             /\ viol' = viol \o tv /\ UNCHANGED <<cfg, Rq, Cn>>
        [] e.e = "app.srvclose.call" ->
-            /\ S' = [x \in DOMAIN SS |-> [SS[x] EXCEPT !.causes = SS[x].causes \cup {"app"}, !.closeCalled = TRUE]]
+            /\ S' = [x \in DOMAIN SS |-> [SS[x] EXCEPT !.causes = SS[x].causes \cup {"app"}, !.closeCalled = TRUE, !.hard = TRUE]]
             /\ viol' = viol \o tv /\ UNCHANGED <<cfg, Rq, Cn>>
        [] e.e = "app.srvclose.ret" ->
             /\ viol' = viol \o tv /\ UNCHANGED <<cfg, S, Rq, Cn>>
@@ -385,7 +395,8 @@ Step ==
                /\ viol' = viol \o tv /\ UNCHANGED <<cfg, Rq>>
        [] e.e = "cli.ws.closed" ->
             /\ Cn' = Put(Cn, e.cid, [Cn[e.cid] EXCEPT !.closed = TRUE, !.role = IF Cn[e.cid].role = "cand" THEN "dead" ELSE Cn[e.cid].role])
-            /\ S' = SS /\ viol' = viol \o tv /\ UNCHANGED <<cfg, Rq>>
+            /\ S' = IF Cn[e.cid].role = "main" /\ Has(SS, Cn[e.cid].sid) THEN Put(SS, Cn[e.cid].sid, [SS[Cn[e.cid].sid] EXCEPT !.closeSeen = TRUE]) ELSE SS
+            /\ viol' = viol \o tv /\ UNCHANGED <<cfg, Rq>>
 
        \* ------------------------------------------------------------ quiescent snapshots
        [] e.e = "snapshot" ->
@@ -394,6 +405,12 @@ Step ==
                 badRs == {x \in DOMAIN SS : x \in DOMAIN e.socks /\ ((e.socks[x] = "closed") # SS[x].closed)}
                 stuckPoll == {x \in DOMAIN SS : SS[x].closed /\ (SS[x].pollOut # 0) /\ ~Rq[SS[x].pollOut].aborted}
                 owed == {x \in want : SS[x].nrcv < Len(SS[x].sent) /\ e.drained}
+                \* C12: a session that ended ONLY because of a graceful Close (no Close(true), no shutdown, no other cause) and whose
+                \* client was reading (it saw the close packet / the teardown) has been handed everything accepted before that Close
+                rcvdIds(x) == {SS[x].sent[i].id : i \in 1..Min2(SS[x].nrcv, Len(SS[x].sent))}
+                lostAtClose == {x \in DOMAIN SS : SS[x].closed /\ SS[x].closeReason = "forced close" /\ SS[x].gracefulAsked /\ ~SS[x].hard
+                                                  /\ SS[x].causes \subseteq {"app"} /\ SS[x].closeSeen /\ ~SS[x].sloppy /\ ~SS[x].nested
+                                                  /\ ~((SS[x].accAtClose \cap {SS[x].sent[i].id : i \in 1..Len(SS[x].sent)}) \subseteq rcvdIds(x))}
             IN /\ S' = SS
                /\ viol' = IF e.parked > 0 THEN viol \o tv      \* not quiescent while somebody is parked at a gate
                           ELSE viol \o tv
@@ -401,6 +418,8 @@ Step ==
                     \o (IF e.count # Cardinality(want) THEN <<V("C04", "client_count_differs_from_live_sessions", "", [count |-> e.count, live |-> Cardinality(want)])>> ELSE <<>>)
                     \o (IF ~e.reach THEN <<V("C04", "session_not_reachable_under_its_id", "", "")>> ELSE <<>>)
                     \o (IF badRs # {} THEN <<V("C03", "state_closed_without_close_event_or_vice_versa", CHOOSE x \in badRs : TRUE, "")>> ELSE <<>>)
+                    \o (IF lostAtClose # {} THEN <<V("C12", "buffered_data_lost_on_graceful_close", CHOOSE x \in lostAtClose : TRUE,
+                                                      [accepted |-> SS[CHOOSE x \in lostAtClose : TRUE].accAtClose, received |-> SS[CHOOSE x \in lostAtClose : TRUE].nrcv])>> ELSE <<>>)
                     \o (IF stuckPoll # {} THEN <<V("C12", "pending_poll_not_released_at_close", CHOOSE x \in stuckPoll : TRUE,
                                                     [inCloseWindow |-> Rq[SS[CHOOSE x \in stuckPoll : TRUE].pollOut].inCloseWindow])>> ELSE <<>>)
                /\ UNCHANGED <<cfg, Rq, Cn>>
